@@ -12,6 +12,8 @@ import (
 	"fmt"
 	"os"
 	"strings"
+
+	"pgregory.net/rapid"
 	"testing"
 
 	"verifh/vh"
@@ -127,6 +129,23 @@ var isBuiltinName = func() map[string]bool {
 var prop = vh.Prop[Case]{ID: "C28", Gen: genCase, Check: check, Text: func(c *Case) *string { return &c.Src }}
 
 func TestC28(t *testing.T) { vh.Run(t, prop) }
+
+// TestC28Arith is the arithmetic arm on its own: composed expressions over
+// every operator and hostile operands, 1..3 statements per case.
+func TestC28Arith(t *testing.T) {
+	p := prop
+	p.Gen = func(t *rapid.T) Case {
+		g := bgen{t}
+		c := Case{Kind: "builtin", Lang: rapid.SampledFrom([]string{"bash", "bash", "mksh", "zsh"}).Draw(t, "alang")}
+		var sb strings.Builder
+		for i, n := 0, g.n(1, 3, "narith"); i < n; i++ {
+			sb.WriteString(g.wrap(g.arithStmt()) + "\n")
+		}
+		c.Src = sb.String()
+		return c
+	}
+	vh.Run(t, p)
+}
 
 // TestC28Probe runs the programs given in VERIF_C28_PROBE (separated by a line
 // holding only "----") and prints what happened; a development aid.
